@@ -838,6 +838,7 @@ impl BackupManager {
         let manifest_layout = read_manifest_layout(&manifest_path)?;
         let mut entries = Vec::new();
         let mut max_wal_file_id: Option<u64> = None;
+        let mut snapshot_file: Option<String> = None;
 
         let all_wal_segments = list_wal_segments_in_dir(&self.data_dir)?;
         let modified_since_parent = |path: &Path| -> bool {
@@ -891,6 +892,28 @@ impl BackupManager {
                     a_id.cmp(&b_id).then_with(|| a.cmp(b))
                 });
                 manifest.wal_segments.dedup();
+
+                // After a snapshot + WAL compaction the current MANIFEST points at a snapshot
+                // that no archive of the parent chain contains (and lists only the segments
+                // retained after it). Ship that snapshot with this incremental, otherwise the
+                // restored MANIFEST has a dangling pointer and the compacted range is lost.
+                if let Some(snapshot_name) = &manifest.latest_snapshot {
+                    if self.chain_snapshot_file(&parent_metadata).as_ref() != Some(snapshot_name) {
+                        let snapshot_path = self.data_dir.join(snapshot_name);
+                        anyhow::ensure!(
+                            snapshot_path.exists(),
+                            "MANIFEST references missing snapshot '{}' in {}",
+                            snapshot_name,
+                            self.data_dir.display()
+                        );
+                        entries.push(ArchiveEntry::from_path(
+                            snapshot_name.clone(),
+                            snapshot_path,
+                        ));
+                        snapshot_file = Some(snapshot_name.clone());
+                    }
+                }
+
                 let manifest_bytes =
                     serde_json::to_vec_pretty(&manifest).context("Failed to serialize MANIFEST")?;
                 entries.push(ArchiveEntry::from_bytes("MANIFEST", manifest_bytes));
@@ -957,7 +980,7 @@ impl BackupManager {
             parent_id: Some(parent_id),
             description,
             max_wal_file_id,
-            snapshot_file: None,
+            snapshot_file,
         };
 
         // Save metadata
@@ -971,6 +994,20 @@ impl BackupManager {
         );
 
         Ok(metadata)
+    }
+
+    /// Snapshot file that a restore of `backup` and its ancestors leaves in place: the one
+    /// shipped by the nearest backup in the parent chain that contains a snapshot.
+    fn chain_snapshot_file(&self, backup: &BackupMetadata) -> Option<String> {
+        let mut current = backup.clone();
+        loop {
+            if current.snapshot_file.is_some() {
+                return current.snapshot_file;
+            }
+            let parent_id = current.parent_id?;
+            let parent_path = self.backup_dir.join(format!("backup_{}.json", parent_id));
+            current = serde_json::from_str(&fs::read_to_string(parent_path).ok()?).ok()?;
+        }
     }
 
     /// List all backups sorted by timestamp (newest first)
